@@ -154,7 +154,10 @@ pub enum Op {
     /// `pauses`: 1-based indices of sink writes at which the simulated thread
     /// hands the baton back (mid-operation pre-emption); `err_at`: 1-based
     /// index of the sink write that fails (0 = never).
-    Fmt { a: Dec, var: u8, w: u8, p: u8, pauses: Vec<u16>, err_at: u16 },
+    /// `reent`: the sink itself calls `RoundingMode::default()` (and rounds a
+    /// witness) inside every `write_str` — re-entrant access from a callback
+    /// that runs in the middle of the library's Display code.
+    Fmt { a: Dec, var: u8, w: u8, p: u8, pauses: Vec<u16>, err_at: u16, reent: bool },
     /// `to_string()` — never rounds: a control.
     ToStr { a: Dec },
 }
@@ -341,11 +344,34 @@ pub struct SimSink<'a> {
     pub on_pause: &'a mut dyn FnMut(u16),
     pub n_paused: u16,
     pub err_fired: bool,
+    pub reent: bool,
+    /// modes seen by re-entrant `default()` calls (255: the call panicked)
+    pub reent_modes: [u8; 12],
+    pub n_reent: u8,
+    /// witness roundings performed re-entrantly, as text
+    pub reent_obs: String,
 }
 
 impl<'a> fmt::Write for SimSink<'a> {
     fn write_str(&mut self, s: &str) -> fmt::Result {
         self.n_writes += 1;
+        if self.reent && (self.n_reent as usize) < self.reent_modes.len() {
+            // a callback running in the middle of the library's Display code
+            // asks for the thread's mode and rounds once
+            let m = catch_unwind(|| mode_index(RoundingMode::default()))
+                .unwrap_or(255);
+            self.reent_modes[self.n_reent as usize] = m;
+            self.n_reent += 1;
+            let r = catch_unwind(|| {
+                let x = Decimal::new_raw(25, 1).round(0);
+                let y = Decimal::new_raw(-27, 1).round(0);
+                (x.coefficient(), y.coefficient())
+            });
+            match r {
+                Ok((x, y)) => self.reent_obs.push_str(&format!("[{},{}]", x, y)),
+                Err(_) => self.reent_obs.push_str("[panic]"),
+            }
+        }
         if self.pauses.contains(&self.n_writes) {
             self.n_paused += 1;
             (self.on_pause)(self.n_writes);
@@ -377,6 +403,8 @@ pub struct SinkInfo {
     pub writes: u16,
     pub paused: u16,
     pub err_fired: bool,
+    pub reent_modes: [u8; 12],
+    pub n_reent: u8,
 }
 
 fn exec_fmt(
@@ -386,6 +414,7 @@ fn exec_fmt(
     p: u8,
     pauses: &[u16],
     err_at: u16,
+    reent: bool,
     on_pause: &mut dyn FnMut(u16),
     info: &mut SinkInfo,
 ) -> Outcome {
@@ -398,6 +427,10 @@ fn exec_fmt(
         on_pause,
         n_paused: 0,
         err_fired: false,
+        reent,
+        reent_modes: [0; 12],
+        n_reent: 0,
+        reent_obs: String::new(),
     };
     let w = w as usize;
     let p = p as usize;
@@ -425,7 +458,14 @@ fn exec_fmt(
     info.writes = sink.n_writes;
     info.paused = sink.n_paused;
     info.err_fired = sink.err_fired;
-    Outcome::Text { out: sink.buf, ok: res.is_ok() }
+    info.reent_modes = sink.reent_modes;
+    info.n_reent = sink.n_reent;
+    let mut out = sink.buf;
+    if reent {
+        out.push_str(" reent:");
+        out.push_str(&sink.reent_obs);
+    }
+    Outcome::Text { out, ok: res.is_ok() }
 }
 
 /// Run `op` through the public API.  May panic (the real code's panics).
@@ -543,8 +583,8 @@ pub fn exec(
         Op::QuantizeII { i, j } => {
             with_int2!(*i, *j, |x, y| out(x.quantize(y)))
         }
-        Op::Fmt { a, var, w, p, pauses, err_at } => {
-            exec_fmt(*a, *var, *w, *p, pauses, *err_at, on_pause, info)
+        Op::Fmt { a, var, w, p, pauses, err_at, reent } => {
+            exec_fmt(*a, *var, *w, *p, pauses, *err_at, *reent, on_pause, info)
         }
         Op::ToStr { a } => Outcome::Text { out: d(*a).to_string(), ok: true },
     }
@@ -720,17 +760,18 @@ impl Op {
             Op::QuantizeII { i, j } => {
                 format!("quantize_ii {} {}", int_s(*i), j)
             }
-            Op::Fmt { a, var, w, p, pauses, err_at } => {
+            Op::Fmt { a, var, w, p, pauses, err_at, reent } => {
                 let ps: Vec<String> =
                     pauses.iter().map(|x| x.to_string()).collect();
                 format!(
-                    "fmt {} v={} w={} p={} pause={} err={}",
+                    "fmt {} v={} w={} p={} pause={} err={}{}",
                     dec_s(*a),
                     var,
                     w,
                     if *p == NOPREC { "-".to_string() } else { p.to_string() },
                     if ps.is_empty() { "-".to_string() } else { ps.join(",") },
-                    err_at
+                    err_at,
+                    if *reent { " reent=1" } else { "" }
                 )
             }
             Op::ToStr { a } => format!("to_string {}", dec_s(*a)),
@@ -874,6 +915,7 @@ impl Op {
                     p,
                     pauses,
                     err_at: keynum("err").unwrap_or(0) as u16,
+                    reent: keynum("reent").unwrap_or(0) != 0,
                 }
             }
             "to_string" => Op::ToStr { a: pdec(0)? },
